@@ -96,6 +96,12 @@ def check_c09(idx: Index, tier: str, res: Result) -> None:
     # the batch run sweeps the model's own grid (start, stop, dt of the model the scenario carries) - the grid the session clock is derived from
     from .sddsl_templates import _sweep
     _sweep(idx, res)
+    # ... and that grid is the one the session clock walks: timerange and run_step normalise alike and cover start..stop (shared with C05)
+    from .timegrid import check_normalisation
+    check_normalisation(idx, res)
+    # one scenario's step settings never reach another scenario of the same step (shared with C06/C07)
+    from .scenarios import stale_rule
+    stale_rule(idx, res, ("BPTK_Py/scenariorunners/", "BPTK_Py/bptk.py"))
     # POST /run reports what the other channels report for the same settings: no value memoised under earlier settings survives
     from .memo import run_resource_reset_rule
     run_resource_reset_rule(idx, res, "PASSTHROUGH")
